@@ -232,9 +232,28 @@ symx.BUILTIN_MODELS.update({"repr": m_repr, "chr": m_chr, "next": m_next})
 symx.SEQ_METHODS.add("join")
 SymStr.join = lambda self, items: str_join(self, items)
 
+def bytes_join(sep, items):
+    items = list(m_iter(items))
+    out = []
+    sepc = seq_cells(sep, SymBytes)
+    for i, it in enumerate(items):
+        if i:
+            out.extend(sepc)
+        cs = seq_cells(unwrap(it), SymBytes) if isinstance(unwrap(it), (bytes, bytearray, SymBytes)) else None
+        if cs is None:
+            raise TypeError("sequence item %d: expected a bytes-like object, %s found" % (i, type(it).__name__))
+        out.extend(cs)
+    return unwrap(SymBytes(out))
+
+
+SymBytes.join = lambda self, items: bytes_join(self, items)
+
+
 def _getattr_join(self, obj, name):
     if isinstance(obj, str) and name == "join":
         return lambda items: str_join(obj, items)
+    if isinstance(obj, (bytes, bytearray)) and name == "join":
+        return lambda items: bytes_join(obj, items)
     return NOT_HANDLED
 
 
